@@ -135,7 +135,8 @@ class FS:
 
         return {"os.path.exists": exists, "os.makedirs": makedirs, "os.listdir": listdir, "os.path.join": join,
                 "os.path.isdir": exists, "os.mkdir": makedirs, "os.path.split": split,
-                "os.path.basename": lambda i, c, r, a, k: a[0].rpartition("/")[2], "os.path.dirname": lambda i, c, r, a, k: a[0].rpartition("/")[0]}
+                "os.path.basename": lambda i, c, r, a, k: (a[0].rpartition("/")[2] if isinstance(a[0], str) else Residual(f"os.path.basename({a[0]})")),
+                "os.path.dirname": lambda i, c, r, a, k: (a[0].rpartition("/")[0] if isinstance(a[0], str) else Residual(f"os.path.dirname({a[0]})"))}
 
 
 def r2(idx, rep):
